@@ -13,7 +13,7 @@ TECHNIQUE = CLAIMS[ID]["technique"]
 RULE = (
     "programs = BIND shapes with rectangular sensor sets covering all four control x calibration combinations (quick 8, "
     "thorough 27 + nonlinear OPS) x configurations CSE in {on, off} x innovation threshold k in {disabled, 5.0, 0.5}; for "
-    "each, ALL event sequences of length <= 3 over {predict(0.125), predict(-0.0625), update(s, predicted + 0.25), "
+    "each, ALL event sequences of length <= 3 over {predict(0.125), predict(-0.0625), predict(0), update(s, predicted + 0.25), "
     "update(s, predicted + 3) for every sensor s} from 2 initial (state, covariance) pairs are run on the real Python "
     "filter; every step's inputs (Python's previous outputs, printed %.17g) are replayed on the compiled generated C++ "
     "filter and state, covariance, stored innovation and accept/reject are compared by name. One evaluation = one step "
@@ -60,7 +60,7 @@ def eval_case(case):
         ekf = pyimpl.py_ekf(d, {"cse": case["cse"], "innovation_filtering": case["k"]})
     except Exception as e:
         return {"n": 1, "fails": [{"key": f"compile-refused:{type(e).__name__}", "what": f"{tag}: {e!r}"[:300]}]}
-    events = [("predict", 0.125), ("predict", -0.0625)]
+    events = [("predict", 0.125), ("predict", -0.0625), ("predict", 0.0)]
     for key in sorted(ref.h):
         events += [("update", key, 0.25), ("update", key, 3.0)]
     inits = []
